@@ -77,7 +77,7 @@ def c03(res, tier, a):
 
 def c04(res, tier, a):
     from checks import c04 as m
-    comps = _components(a, ["ops", "runtime", "lirwat"])
+    comps = _components(a, ["ops", "runtime", "lirwat", "lirts"])
     with Scratch(slot()) as sc:
         ws.inject(sc)
         drv = ws.Driver(ws.build_driver(sc))
@@ -91,6 +91,9 @@ def c04(res, tier, a):
         if "lirwat" in comps:
             from checks import et
             cov.update(et.run_lirwat(res, tier, sc, drv))
+        if "lirts" in comps:
+            from checks import et
+            cov.update(et.run_lirts(res, tier, sc, drv))
         res.coverage.update(cov)
         res.coverage["states"] = max(1, cov.get("operator_obligations", 0) + cov.get("runtime_obligations", 0) + cov.get("vec_runtime", {}).get("obligations", 0))
         res.coverage["transitions"] = max(1, cov.get("operator_obligations", 0) + cov.get("runtime_obligations", 0) + cov.get("vec_runtime", {}).get("obligations", 0))
